@@ -1,6 +1,10 @@
 package format
 
-import "github.com/compose-spec/compose-go/v2/types"
+import (
+	"unicode"
+
+	"github.com/compose-spec/compose-go/v2/types"
+)
 
 // C03 (volumes): ParseVolume against a reference parser of [SOURCE:]TARGET[:MODE,...].
 
@@ -18,6 +22,15 @@ type c03Vol struct {
 
 func c03IsLetter(c byte) bool { return (c >= 'a' && c <= 'z') || (c >= 'A' && c <= 'Z') }
 
+// a section consisting of exactly one letter (a drive letter; any unicode letter counts)
+func c03SingleLetter(cur string) bool {
+	if len(cur) == 1 {
+		return c03IsLetter(cur[0])
+	}
+	r := []rune(cur)
+	return len(r) == 1 && unicode.IsLetter(r[0])
+}
+
 func c03IsPath(s string) bool {
 	if s == "" {
 		return false
@@ -28,7 +41,11 @@ func c03IsPath(s string) bool {
 	if len(s) >= 2 && s[0] == '\\' && s[1] == '\\' {
 		return true
 	}
-	return len(s) >= 2 && c03IsLetter(s[0]) && s[1] == ':'
+	if len(s) >= 2 && c03IsLetter(s[0]) && s[1] == ':' {
+		return true
+	}
+	r := []rune(s)
+	return len(r) >= 2 && unicode.IsLetter(r[0]) && r[1] == ':'
 }
 
 func c03RefVolume(spec string) c03Vol {
@@ -41,12 +58,12 @@ func c03RefVolume(spec string) c03Vol {
 	cur := ""
 	for i := 0; i < len(spec); i++ {
 		c := spec[i]
-		if c == ':' && !(len(cur) == 1 && c03IsLetter(cur[0])) {
+		if c == ':' && !c03SingleLetter(cur) {
 			parts = append(parts, cur)
 			cur = ""
 			continue
 		}
-		cur += string(c)
+		cur += spec[i : i+1]
 	}
 	parts = append(parts, cur)
 	for _, p := range parts {
@@ -93,7 +110,9 @@ func c03RefVolume(spec string) c03Vol {
 
 func VerifC03Volume() {
 	L := vrtParam("L", 6)
-	spec := vrtString("spec", L, ":/.~\\aCz,ro")
+	// optional concrete non-ASCII first character (symbolic bytes are 7-bit)
+	atom := []string{"", "\u20ac", "\u65e5"}[vrtChoice("atom", 3)]
+	spec := atom + vrtString("spec", L, ":/.~\\aCz,ro")
 	got, err := ParseVolume(spec)
 	want := c03RefVolume(spec)
 	vrtObserve("err", err != nil)
@@ -147,5 +166,56 @@ func VerifC03Volume() {
 	}
 	if want.nocopy {
 		vrtAssert("nocopy", got.Volume != nil && got.Volume.NoCopy)
+	}
+}
+
+
+// VerifC03VolumeOptions: the mode list of a short volume spec, options in any order.
+func VerifC03VolumeOptions() {
+	opts := []string{"ro", "rw", "z", "Z", "rshared", "rprivate", "slave", "nocopy", "bogus"}
+	n := 1 + vrtChoice("count", 3)
+	list := ""
+	var ro bool
+	var sel, prop string
+	var nocopy bool
+	for k := 0; k < n; k++ {
+		o := opts[vrtChoice("opt", len(opts))]
+		if k > 0 {
+			list += ","
+		}
+		list += o
+		switch o {
+		case "ro":
+			ro = true
+		case "rw":
+			ro = false
+		case "z", "Z":
+			sel = o
+		case "rshared", "rprivate", "slave":
+			prop = o
+		case "nocopy":
+			nocopy = true
+		}
+	}
+	src := []string{"/src", "vol"}[vrtChoice("source", 2)]
+	got, err := ParseVolume(src + ":/dst:" + list)
+	vrtObserve("err", err != nil)
+	vrtAssert("parses", err == nil)
+	if err != nil {
+		return
+	}
+	vrtAssert("read_only", got.ReadOnly == ro)
+	if sel != "" || prop != "" {
+		vrtAssert("bind-options-present", got.Bind != nil)
+		if got.Bind != nil {
+			vrtAssert("selinux-kept", got.Bind.SELinux == sel)
+			vrtAssert("propagation-kept", got.Bind.Propagation == prop)
+		}
+	}
+	if nocopy {
+		vrtAssert("nocopy", got.Volume != nil && got.Volume.NoCopy)
+	}
+	if src == "/src" {
+		vrtAssert("bind-create-host-path", got.Bind != nil && got.Bind.CreateHostPath)
 	}
 }
